@@ -40,7 +40,7 @@ COMPONENTS = {'real': tc.TAGGER_REAL + ['write_status'],
               'stub': tc.TAGGER_STUB + ['crash injector: sys.settrace line events on the pipeline code objects, os._exit(137) in the forked child',
                                         'fault plan: proxy objects bound to the names pysam / os / shutil / move inside bamFunctions and bamtagmultiome; write-mode AlignmentFile wrapper',
                                         'SimPool worker exception / worker loss', 'RLIMIT_FSIZE in the forked child (thorough tier)']}
-REQUIRED_PROBES = ['input_index_stale', 'baseline_success', 'kill_after_first_write', 'kill_during_post_processing', 'seam_fault_fired', 'worker_fault_fired', 'stale_success_initial_state', 'status_not_success_after_fault']
+REQUIRED_PROBES = ['rerun_after_failure_succeeded', 'input_index_stale', 'baseline_success', 'kill_after_first_write', 'kill_during_post_processing', 'seam_fault_fired', 'worker_fault_fired', 'stale_success_initial_state', 'status_not_success_after_fault']
 EXHAUSTIVE_NOTE = 'per sampled (workload, pipeline, method, initial state): all executed (function,line) sites x 5 occurrence classes, all seams x 4 call-index classes x errors, all jobs x 3 worker faults'
 SLICES = 4
 OCC = ['first', 'second', 'middle', 'last-but-one', 'last']
@@ -289,6 +289,29 @@ def execute(case):
             log.add('plan', pi, plan, status, verdict, exc, res.get('crashed_at'))
             inflight = fired and not (plan['kind'] == 'crash' and first_idx.get((plan['func'], plan['line']), 0) < 3)
             sigs.append((f"{log.digest()[:16]}", bool(inflight)))
+            # recovery: once the fault is over, the operator runs the same command again in the same directory (on top of whatever
+            # the failed lifetime left behind: unsorted files, temp folders, a stale status). If THAT run reports success it is held to the
+            # same standard; whether it succeeds at all is recorded as a probe only (liveness is not part of the statement)
+            if fired and status != pl.SUCCESS and (pi % 6 == 0 or case.get('plans') is not None) and plan['kind'] != 'fsize':
+                if p.get('index_state'):
+                    tc.write_input(d, case)
+                o2 = tc.run_mode(d, case, dict(mode), tag, in_bam=in_bam)
+                steps += o2['res'].get('sched_steps', 0)
+                probe('rerun_after_failure')
+                if o2['status'] == pl.SUCCESS:
+                    probe('rerun_after_failure_succeeded')
+                    prob2 = pl.check_sorted_indexed(o2['out'])
+                    try:
+                        mis2, ext2 = tc.conservation_diff(P, case['workload'], p['method'], p.get('no_rejects'), pl.canonical_records(o2['out']) if not prob2 else [])
+                    except Exception:
+                        mis2, ext2, prob2 = {}, {}, prob2 or ['unreadable']
+                    if prob2 or mis2 or ext2:
+                        where = plan.get('func') or plan.get('seam') or plan.get('wkind') or plan['kind']
+                        viol.append({'property': PROPERTY, 'class': 'success-claimed-for-incomplete-output',
+                                     'signature': f"{mode['name']}/rerun-after-{plan['kind']}/{where}/{(prob2 or ['records-differ'])[0]}",
+                                     'detail': {'plan': plan, 'mode': mode['name'], 'method': p['method'], 'rerun': True, 'problems': prob2,
+                                                'n_missing': sum(mis2.values()) if mis2 else 0, 'n_extra': sum(ext2.values()) if ext2 else 0}})
+                log.add('rerun', pi, o2['status'], o2['res'].get('exception'))
             shutil.rmtree(sub, ignore_errors=True)
     return {'violations': viol, 'digest': log.digest(), 'probes': probes, 'faults': faults, 'evals': len(sigs) + 1, 'sigs': sigs,
             'steps': steps, 'sim_time': sim_time, 'nontrivial': any(s[1] for s in sigs), 'vacuous': vacuous,
